@@ -36,7 +36,8 @@ vars == <<code, vstack, cstack, bad, fin, pend>>
 NumT == {"i32", "i64", "f32", "f64"}
 ValT == NumT \cup {"v128"}
 (* locals: parameters first, then two scratch locals per numeric type, one v128, three loop counters, one address register *)
-Scratch == <<"i32", "i32", "i64", "i64", "f32", "f32", "f64", "f64", "v128", "i32", "i32", "i32", "i32", "funcref", "externref">>
+Scratch == <<"i32", "i32", "i64", "i64", "f32", "f32", "f64", "f64", "v128", "i32", "i32", "i32", "i32", "funcref", "externref",
+             "f32", "f64", "v128">>      \* the last three are never named by generated code (the executor's NaN-canonicalising variant uses them)
 RefT == {"funcref", "externref"}
 Locals == Params \o Scratch
 ScratchBase == Len(Params)
